@@ -48,15 +48,16 @@ Section Vec.
 
   (* it.max_by_key(key): std folds with `match cmp(acc, new) { Greater => acc, _ => new }`,
      so among equal maxima the LAST one is returned *)
-  Fixpoint max_by_key_from (key : A -> nat) (best : A) (l : list A) : A :=
+  Fixpoint max_by_key_from (key : A -> nat) (kb : nat) (best : A) (l : list A) : A :=
     match l with
     | [] => best
-    | y :: l' => max_by_key_from key (if key y <? key best then best else y) l'
+    | y :: l' => let ky := key y in                      (* the key of every element is computed once *)
+                 if ky <? kb then max_by_key_from key kb best l' else max_by_key_from key ky y l'
     end.
   Definition max_by_key (key : A -> nat) (l : list A) : option A :=
     match l with
     | [] => None
-    | x :: l' => Some (max_by_key_from key x l')
+    | x :: l' => Some (max_by_key_from key (key x) x l')
     end.
 
   (* it.max_by(cmp) with a comparison that may panic (partial_cmp(..).unwrap()) *)
